@@ -95,7 +95,7 @@ def rule_D1(ctx):
             r.examine((f["path"], inst), True, {"fn": f["path"], "sink": inst, "where": where, "byte_length_reaches_it": bad})
             if bad:
                 r.finding(f["path"], inst, where, msg)
-    r.floor("character-count sinks in the data crate", sinks, 5)
+    r.floor("character-count sinks in the data crate", sinks, 3)
     # D1b: char -> u8 `as` casts in data::parsing (expected count zero: no floor, the fixture control keeps the rule honest)
     def d1b_sites(f):
         out = []
@@ -274,7 +274,7 @@ def rule_D2(ctx):
                     r.info.append("allowed %s %s: %s" % (f["path"], inst, a))
                     continue
                 r.finding(f["path"], inst, where, "raw heap vector indexed without a block base: the index expression has no StorageBlock.start among its origins (block-relative address used as an absolute one)")
-    r.floor("raw heap index/slice sites", total, 25)
+    r.floor("raw heap index/slice sites", total, 10)
     for f in F.fns_in("gfixture::d2::"):
         if f["kind"] == "Closure":
             continue
@@ -369,7 +369,7 @@ def rule_D5(ctx):
     F = ctx.F
     r = RuleResult("D5", "escape-buffer-reset: in the literal parsers an accumulator that has been decoded is emptied before it accumulates the next escape")
     fns = [f for f in F.fns.values() if f["crate"] == "garnish_lang_simple_data" and "::data::parsing::" in f["path"] and f["kind"] != "Closure"]
-    r.floor("functions in data::parsing", len(fns), 4)
+    r.floor("functions in data::parsing", len(fns), 2)
     n_dec = 0
     for f in sorted(fns, key=lambda f: f["path"]):
         try:
